@@ -29,6 +29,56 @@ def _worker_run(job):
     except Exception as e:
         return {'job': job, 'crash': '%s: %s\n%s' % (type(e).__name__, e, traceback.format_exc()[-2000:]), 'wall': time.time() - t0}
 
+def _worker_loop(modules, scen_name, tasks, results):
+    _worker_init(modules, scen_name)
+    while True:
+        item = tasks.get()
+        if item is None: return
+        i, job = item
+        results.put(('start', os.getpid(), i))
+        results.put(('done', os.getpid(), i, _worker_run(job)))
+
+def run_pool(jobs, modules, scen_name, nproc, budget, job_timeout):
+    """own scheduler instead of multiprocessing.Pool: a worker that dies (crash, OOM) or exceeds the per-job
+    timeout is noticed, its job is reported as crashed/undecided and a new worker is started."""
+    import queue
+    ctx = multiprocessing.get_context('fork')
+    tasks = ctx.Queue(); resq = ctx.Queue()
+    for i, j in enumerate(jobs): tasks.put((i, j))
+    procs = {}
+    def spawn():
+        p = ctx.Process(target=_worker_loop, args=(modules, scen_name, tasks, resq), daemon=True); p.start(); procs[p.pid] = p
+    for _ in range(nproc): spawn()
+    running = {}            # pid -> (job index, start time)
+    results = {}; t0 = time.time()
+    while len(results) < len(jobs):
+        if time.time() - t0 > budget: break
+        try:
+            msg = resq.get(timeout=0.5)
+            if msg[0] == 'start': running[msg[1]] = (msg[2], time.time())
+            else:
+                results[msg[2]] = msg[3]; running.pop(msg[1], None)
+            continue
+        except queue.Empty:
+            pass
+        for pid, p in list(procs.items()):
+            i_t = running.get(pid)
+            if not p.is_alive():
+                del procs[pid]
+                if i_t is not None and i_t[0] not in results:
+                    results[i_t[0]] = {'job': jobs[i_t[0]], 'inconclusive_worker': 'worker process died (exit code %s) while running this configuration' % p.exitcode, 'wall': time.time() - i_t[1]}
+                running.pop(pid, None)
+                if len(results) < len(jobs): spawn()
+            elif i_t is not None and time.time() - i_t[1] > job_timeout:
+                p.terminate(); p.join(5); del procs[pid]; running.pop(pid, None)
+                results[i_t[0]] = {'job': jobs[i_t[0]], 'inconclusive_worker': 'configuration exceeded the per-configuration timeout of %d s' % job_timeout, 'wall': time.time() - i_t[1]}
+                if len(results) < len(jobs): spawn()
+    for p in procs.values():
+        try: p.terminate()
+        except Exception: pass
+    cutjobs = [jobs[i] for i in range(len(jobs)) if i not in results]
+    return [results[i] for i in sorted(results)], len(cutjobs)
+
 # ------------------------------------------------------------------ result helpers (used by scenarios, worker side)
 def new_result():
     return {'paths': 0, 'nontrivial': 0, 'kinds': {}, 'obligations': 0, 'discharged': 0, 'trivial': 0, 'solver_queries': 0,
@@ -155,16 +205,8 @@ def main(scen_name, tier):
         jobs = scen.jobs(tier, seed)
         random.Random(seed).shuffle(jobs)
         budget = scen.BUDGET[tier] if hasattr(scen, 'BUDGET') else (240 if tier == 'quick' else 3600)
-        results = []; cut = 0
-        ctx = multiprocessing.get_context('fork')
-        with ctx.Pool(min(ncpu, max(1, len(jobs))), _worker_init, (modules, scen_name)) as pool:
-            it = pool.imap_unordered(_worker_run, jobs, 1)
-            for k in range(len(jobs)):
-                left = budget - (time.time() - t_start)
-                try:
-                    results.append(it.next(timeout=max(1.0, left)))
-                except multiprocessing.TimeoutError:
-                    cut = len(jobs) - len(results); pool.terminate(); break
+        if os.environ.get('VERIF_BUDGET'): budget = int(os.environ['VERIF_BUDGET'])
+        results, cut = run_pool(jobs, modules, scen_name, min(ncpu, max(1, len(jobs))), budget - (time.time() - t_start), getattr(scen, 'JOB_TIMEOUT', {}).get(tier, 600))
         nat = NativeRunner(workdir)
         known = load_known()
         rc = report(scen, prop, tier, seed, jobs, results, cut, nat, known, ev_path, t_start, t_build, workdir)
@@ -178,6 +220,7 @@ def report(scen, prop, tier, seed, jobs, results, cut, nat, known, ev_path, t_st
     fnset = set(); walls = []
     for r in results:
         if 'crash' in r: crashes.append(r['crash']); continue
+        if 'inconclusive_worker' in r: incon.append('%s [%s %s]' % (r['inconclusive_worker'], r['job'].get('name'), r['job'].get('field') or r['job'].get('forced') or r['job'].get('cfg'))); continue
         for k in ('paths', 'nontrivial', 'obligations', 'discharged', 'trivial', 'solver_queries', 'steps', 'forks'): agg[k] += r.get(k, 0)
         agg['solver_s'] += r.get('solver_s', 0.0)
         for k, v in r.get('kinds', {}).items(): agg['kinds'][k] = agg['kinds'].get(k, 0) + v
@@ -188,7 +231,7 @@ def report(scen, prop, tier, seed, jobs, results, cut, nat, known, ev_path, t_st
             if v['id'] in viol: viol[v['id']]['count'] += v['count']
             else: viol[v['id']] = dict(v); viol[v['id']]['job'] = r['job']
         incon.extend(r.get('inconclusive', []))
-        walls.append(r.get('wall', 0))
+        walls.append((r.get('wall', 0), r['job'].get('name'), r['job'].get('field') or r['job'].get('forced') or r['job'].get('cfg')))
     # replay + classify
     lines = []; nviol = 0; nknown = 0; validated = 0; mismatches = []
     rdir = os.path.join(VERIF, 'replays', prop)
@@ -236,7 +279,7 @@ def report(scen, prop, tier, seed, jobs, results, cut, nat, known, ev_path, t_st
         'functions_encoded': sorted(f for f in fnset)[:400], 'functions_encoded_count': len(fnset),
         'bounds': getattr(scen, 'BOUNDS', {}).get(tier, ''), 'outside_claim': getattr(scen, 'OUTSIDE', ''),
         'engine': ENGINE_DESC % z3.get_version_string(), 'ir_build_s': round(t_build, 1),
-        'samples': samples or [{'note': 'no sample recorded'}],
+        'samples': samples or [{'note': 'no sample recorded'}], 'slowest_configurations': [[round(w, 1), str(n), str(f)[:80]] for w, n, f in sorted(walls, key=lambda x: -x[0])[:8]],
         'violations_reported': nviol, 'known_findings_seen': nknown, 'status': status,
         'inconclusive': incon[:20], 'crashes': crashes[:3], 'engine_native_mismatches': mismatches[:10],
         'exhaustive': False,
